@@ -805,4 +805,28 @@ theorem srtAck_stamp_irrelevant (c : Conn) (x : Option Nat) (a : Int) (now : Nat
   dsimp only
   split <;> rfl
 
+/-! ## The verdict stamp of the event loop (`Ev.stamp`) -/
+
+theorem stampLink_getElem? (ls : List (FLink F)) (idx : Nat) (weak ld ccb : Bool) (cct : Nat) (j : Nat) :
+    (stampLink ls idx weak ld ccb cct)[j]? =
+      (ls[j]?).map fun l => if j = idx then
+        { l with weak := weak, lossDegraded := ld, ccBackingOff := ccb, ccTarget := cct } else l := by
+  unfold stampLink
+  rw [List.getElem?_mapIdx]
+
+/-- A relation that holds between a link and itself, and between a link and any re-stamping of its four
+verdict fields, holds position-wise across a `stamp` event. -/
+theorem pw_stampLink {R : FLink F → FLink F → Prop} (hr : ∀ l, R l l)
+    (hs : ∀ (l : FLink F) weak ld ccb cct,
+      R l { l with weak := weak, lossDegraded := ld, ccBackingOff := ccb, ccTarget := cct })
+    (ls : List (FLink F)) (idx : Nat) (weak ld ccb : Bool) (cct : Nat) :
+    PW R ls (stampLink ls idx weak ld ccb cct) := by
+  refine ⟨by unfold stampLink; exact List.length_mapIdx.symm, fun j a b ha hb => ?_⟩
+  rw [stampLink_getElem?, ha] at hb
+  simp only [Option.map_some, Option.some.injEq] at hb
+  subst hb
+  split
+  · exact hs a _ _ _ _
+  · exact hr a
+
 end Srtla.Uplink
